@@ -234,11 +234,11 @@ macro_rules! ni_batch {
 }
 //@ harness name=aes128_ni_batch10_enc prop=C04,C20 tier=thorough bits=7072 stub=1 est=300 variants=aes:ni desc="Aes128 (AES-NI arm, arbitrary round keys) encrypt_blocks in place on 10 blocks (one full 9-wide batch + a tail of 1) at a symbolic buffer offset 0..15: output block i (i symbolic) equals the single-block call on block i; guard bytes unchanged; all states and contents"
 ni_batch!(aes128_ni_batch10_enc, crate::Aes128, 10, false, false);
-//@ harness name=aes128_ni_batch10_enc_b2b prop=C04,C20 tier=thorough bits=7072 stub=1 variants=aes:ni est=225 need=6 desc="Aes128 (AES-NI arm) encrypt_blocks_b2b on 10 blocks: output block i (i symbolic) equals the single-block call; separate input unchanged"
+//@ harness name=aes128_ni_batch10_enc_b2b prop=C04,C20 tier=quick bits=7072 stub=1 variants=aes:ni est=225 need=6 desc="Aes128 (AES-NI arm) encrypt_blocks_b2b on 10 blocks: output block i (i symbolic) equals the single-block call; separate input unchanged"
 ni_batch!(aes128_ni_batch10_enc_b2b, crate::Aes128, 10, false, true);
 //@ harness name=aes128_ni_batch10_dec prop=C04,C20 tier=thorough bits=7072 stub=1 est=300 variants=aes:ni desc="Aes128 (AES-NI arm) decrypt_blocks in place on 10 blocks (9-wide batch + tail), symbolic offset: output block i equals the single-block call; guards unchanged"
 ni_batch!(aes128_ni_batch10_dec, crate::Aes128, 10, true, false);
-//@ harness name=aes128_ni_batch10_dec_b2b prop=C04,C20 tier=thorough bits=7072 stub=1 variants=aes:ni est=225 need=6 desc="Aes128 (AES-NI arm) decrypt_blocks_b2b on 10 blocks: output block i equals the single-block call; separate input unchanged"
+//@ harness name=aes128_ni_batch10_dec_b2b prop=C04,C20 tier=quick bits=7072 stub=1 variants=aes:ni est=225 need=6 desc="Aes128 (AES-NI arm) decrypt_blocks_b2b on 10 blocks: output block i equals the single-block call; separate input unchanged"
 ni_batch!(aes128_ni_batch10_dec_b2b, crate::Aes128, 10, true, true);
 //@ harness name=aes128_ni_batch9_enc prop=C04 tier=thorough bits=6944 stub=1 est=300 variants=aes:ni desc="as batch10, n = 9 (exactly the parallel width), in place"
 ni_batch!(aes128_ni_batch9_enc, crate::Aes128, 9, false, false);
